@@ -219,6 +219,20 @@ def _run_system(item):
                     tr[c] = df[c].to_numpy()
             res["dict_frames"] = 1
         else:
+            if item["k"] % 4 == 0:
+                # the data also carry (survey-reported) columns named like ANOTHER time unit of some rules: the rule column
+                # itself must still hold the rule's value in every row
+                import re as _re
+
+                nodes0 = env.graph(functions, list(df.columns))[0]
+                cands = [t for t in nodes0 if t in functions and shadow.is_scalar_rule(functions[t]) and _re.search(r"_(m|y)(_(hh|fg|bg|eg|ehe|sn|wthh))?$", t)]
+                extra = {}
+                for t in [cands[i] for i in rng.choice(len(cands), min(6, len(cands)), replace=False)] if cands else []:
+                    other = _re.sub(r"_(m|y)((_(hh|fg|bg|eg|ehe|sn|wthh))?)$", lambda m_: ("_y" if m_.group(1) == "m" else "_m") + m_.group(2), t)
+                    if other not in nodes0 and other not in df.columns and other not in functions:
+                        extra[other] = np.full(len(df), 777.0)
+                df = df.assign(**extra)
+                res["other_unit_columns_next_to_rules"] = len(extra)
             tr, nodes, roots, dag, fn = env.trace(df, params, functions, rounding=False)
     except Exception as e:  # noqa: BLE001 - completeness is C08's business; here the run just yields nothing to compare
         res["system_run_raised"] = f"{type(e).__name__}: {str(e)[:120]}"
@@ -226,9 +240,16 @@ def _run_system(item):
         return res
     kinds = env.classify(fn)
     for nme in nodes:
-        if kinds[nme] != "rule" or nme not in functions or not shadow.is_scalar_rule(functions[nme]):
+        # whatever the graph factory made of the name: a node the environment defines by a scalar rule holds that rule's values
+        if nme not in functions or not shadow.is_scalar_rule(functions[nme]):
             continue
         f = functions[nme]
+        missing = [a for a in shadow.rule_args(f) if not (a.endswith("_params") and a[:-7] in params) and a not in tr.columns]
+        if missing:
+            res["violations"].append(dict(key=f"{nme}:not_computed_by_its_rule", date=item["date"],
+                                          what=f"{nme} is defined by the scalar rule {f.__name__} but the run does not contain the rule's argument(s) "
+                                               f"{missing[:3]}: the column was computed by something else (graph kind {kinds.get(nme)})"))
+            continue
         cols = {a: shadow.pylist(tr[a].to_numpy(), in_dag=a in nodes) for a in shadow.rule_args(f) if not (a.endswith("_params") and a[:-7] in params)}
         ref = _compare_rule(nme, f, params, cols, tr[nme].to_numpy(), res, dict(date=item["date"]))
         res["rule_names"].append(nme)
@@ -349,6 +370,7 @@ def summarize(results, tier, seed):
              "compared bit-exactly against the scalar rule, plus distinct system populations",
         rules_total=len(all_rules), rules_exercised_single=len(exercised),
         rules_exercised_system=len(sys_rules),
+        other_unit_data_columns_next_to_rules=sum(r.get("other_unit_columns_next_to_rules", 0) for r in system),
         system_runs_through_debug_frame=sum(r.get("debug_frames", 0) for r in system),
         system_runs_with_dict_of_series_and_permuted_labels=dict(computed=sum(r.get("dict_frames", 0) for r in system),
                                                                  rejected_loudly=sum(r.get("dict_frames_rejected", 0) for r in system)),
